@@ -35,17 +35,11 @@ def _marked_section(task, f):
 def _br_styled(task, f):
     return re.search(rb"<br\b[^>]*\s[\w:.-]+\s*=|<br\b[^>]*>\s*<set\b", task["data"]) is not None
 
-def _empty_text(task, f):
-    try: return R.decode_text(task["data"]) == ""
-    except Exception: return False
-
 # id, regex over "<Type>|<site>" (site = innermost-first ttconv frames with qualified names), stages it may surface in
 # (regex over the stage label), optional predicate on the input
 FINDINGS = [
     ("ruby-inactive-annotation", r"^ValueError\|model\.py:(Ruby|Rtc)\.push_children<-isd\.py:(ISD\._process_element|_clone_doc_with_one_region\._copy_content_element)<-", r".*", None),
     ("recursion-deep-nesting", r"^RecursionError\|", r".*", _depth),
-    ("vtt-empty-file", r"^AttributeError\|vtt/reader\.py:to_model$", r"^read$", _empty_text),
-    ("vtt-cue-without-payload", r"^UnboundLocalError\|vtt/reader\.py:to_model$", r"^read$", None),
     ("vtt-rt-outside-ruby", r"^AttributeError\|vtt/reader\.py:_TextCueParser\._handle_starttag<-", r"^read$", _none_push_child),
     ("vtt-stray-end-tag", r"^(TypeError\|model\.py:(Div|Body)\.push_child<-|AttributeError\|)vtt/reader\.py:_TextCueParser\.(_handle_string|_handle_starttag|_handle_ts|_handle_endtag|_make_span)<-", r"^read$", None),
     ("vtt-ruby-structure", r"^(RuntimeError\|(model\.py:\w+\.push_child<-)?|TypeError\|model\.py:(Span|Rt|Rb|Rbc|Rtc|P)\.push_child<-)vtt/reader\.py:_TextCueParser\.", r"^read$", None),
@@ -59,8 +53,6 @@ FINDINGS = [
     ("srt-markup-declaration", r"^AssertionError\|srt/reader\.py:to_model$", r"^read$", _marked_section),
     ("isd-style-on-br", r"^(ValueError|AttributeError)\|(isd\.py:_compute_length<-)?isd\.py:StyleProcessors\.\w+\.compute<-isd\.py:ISD\._compute_styles<-", r".*", _br_styled),
     ("imsc-zero-rate", r"^ZeroDivisionError\|(imsc/utils\.py:parse_time_expression<-)?imsc/attributes\.py:\w+\.extract<-", r"^read$", None),
-    ("stl-bad-tcp", r"^AttributeError\|stl/datafile\.py:DataFile\.__init__<-", r"^read$", None),
-    ("stl-bad-mnr", r"^AttributeError\|stl/datafile\.py:DataFile\.get_max_row_count<-stl/datafile\.py:DataFile\.process_tti_block<-", r"^read$", None),
     ("stl-cumulative-block-first", r"^AttributeError\|stl/datafile\.py:DataFile\.process_tti_block<-", r"^read$", None),
     ("stl-zero-block-count", r"^ZeroDivisionError\|stl/reader\.py:to_model$", r"^read$", None),
     ("stl-zero-row-count", r"^ZeroDivisionError\|stl/datafile\.py:DataFile\.process_tti_block<-", r"^read$", None),
@@ -70,7 +62,6 @@ FINDINGS = [
     ("cue-shorter-than-a-millisecond", r"^ValueError\|(srt/paragraph\.py:SrtParagraph|vtt/cue\.py:VttCue)\.to_string<-", r"(srt|vtt)", None),
     ("imsc-writer-aspect-ratio-overflow", r"^OverflowError\|imsc/attributes\.py:DisplayAspectRatioAttribute\.set<-", r"imsc", None),
     ("imsc-writer-special-values", r"^AttributeError\|imsc/style_properties\.py:StyleProperties\.\w+\.(from_model|has_px)<-", r"imsc", None),
-    ("lcd-bg-color-without-body", r"^TypeError\|filters/doc/lcd\.py:_apply_bg_color<-filters/doc/lcd\.py:LCDDocFilter\.process$", r"^lcd", None),
     ("lcd-position", r"^(AttributeError|AssertionError)\|isd\.py:StyleProcessors\.Position\.compute<-filters/doc/lcd\.py:LCDDocFilter\.process$", r"^lcd", None),
 ]
 
@@ -409,7 +400,7 @@ def main():
         "the claim is partial by nature: stack depth, memory and termination of expat / html.parser are not modelled; the theorems establish totality of the transcribed guards only",
         "exception classes: XML-layer errors raised by xml.etree before the IMSC reader runs count as 'XML parse error'; UnicodeDecodeError counts wherever the decoder raises it; "
         "RuntimeError, ZeroDivisionError, OverflowError, LookupError, NameError and a time-out count as internal (not documented)",
-        "findings are matched by exception type + innermost ttconv frames (qualified function names) + stage, for RecursionError and the empty WebVTT file additionally by a predicate on the input",
+        "findings are matched by exception type + innermost ttconv frames (qualified function names) + stage, for RecursionError, styled br and '<!' declarations additionally by a predicate on the input",
     ]
     return run.finish(["harness/c18gen.py (generators, mutators), harness/c18run.py (classification of exceptions, traceback sites, pipeline driver)",
                        "harness/guards18.py (literal printer of inputs and of the recorded observations, RLE of STL bytes)",
